@@ -383,6 +383,10 @@ def variants(draw, program, feats=ALL_FEATS, x=None, p_fail=9):
         if nid in rec_max:
             mx = rec_max[nid]
             beh['rec_n'] = draw(st.sampled_from([0, 1, 1, 2, mx, mx, mx + 1]))
+            if beh['rec_n'] and draw(st.integers(0, 5)) == 0:
+                # next_iteration(0): falsy additional_data must reach the start node like any other value (the start
+                # then looks like iteration 0 again, so the destination keeps asking until iterations are exhausted)
+                beh['rec_data'] = 'zero'
         if 'fail' in feats and draw(st.integers(0, 99)) < p_fail:
             k = _weighted(draw, [(0, 3), (1, 3), (2, 2), (3, 1)])
             outs = [draw(st.sampled_from(outcomes_pool + ['ok'])) for _ in range(k)]
